@@ -133,7 +133,12 @@ class ThermochemRawData(ThermochemBase):
 
         # The easiest, albeit not necessarily the best thing to do here is to
         # use numerical integration, so that's what we do.
-        return ND_S + integrate(lambda t: self.spline(t)/t, T_a, T_b)[0]
+        # The integrand is only piecewise smooth: without the data points as
+        # break points the integrator's error estimate is unreliable.
+        knots = [t for t in self.Ts if min(T_a, T_b) < t < max(T_a, T_b)]
+        return ND_S + integrate(lambda t: self.spline(t)/t, T_a, T_b,
+                                points=knots or None,
+                                limit=50 + 2*len(knots))[0]
 
     def get_HoRT(self, T):
         """Return non-dimensional standard heat of formation |eq_ND_H_T|."""
